@@ -159,11 +159,11 @@ pub fn run(ctx: &Ctx) -> ! {
         add("json_deep", Some(FileKind::Bytes { hex: "5b".repeat(300) }), None, None, false, &mut rng, &mut ev);
         // well-formed content of an odd shape, per kind of file
         let odd: &[&str] = if c.name.starts_with("parse_groks") {
-            &["{\"A\": 1}", "{\"A\": null, \"B\": [\"x\"]}", "{\"\": \"x\"}", "{\"PATTERN_A\": \"%{\"}", "{\"A\\u0000\": \"x\"}", "{\"PATTERN_A\": \"%{NOSUCH:x}\"}", "{\"PATTERN_A\": \"(\"}", "{\"PATTERN_A\": \"username=%{USERNAME:username\"}", "{}", "[]", "null", "\"s\"", "{\"PATTERN_A\": {\"nested\": \"x\"}}", " ", "\n", "{\"PATTERN_A\": [\"username=\", 1]}", "{\"PATTERN_A\": [\"a\", \"b\"]}", "{\"PATTERN_A\": [1, \"a\", null, {}]}", "{\"PATTERN_A\": [], \"PATTERN_B\": [[\"x\"]]}", "{\"PATTERN_A\": true, \"PATTERN_B\": 1.5}"]
+            &["{\"A\": 1}", "{\"A\": null, \"B\": [\"x\"]}", "{\"\": \"x\"}", "{\"PATTERN_A\": \"%{\"}", "{\"A\\u0000\": \"x\"}", "{\"PATTERN_A\": \"%{NOSUCH:x}\"}", "{\"PATTERN_A\": \"(\"}", "{\"PATTERN_A\": \"username=%{USERNAME:username\"}", "{}", "[]", "null", "\"s\"", "{\"PATTERN_A\": {\"nested\": \"x\"}}", " ", "\n", "{\"PATTERN_A\": [\"username=\", 1]}", "{\"PATTERN_A\": [\"a\", \"b\"]}", "{\"PATTERN_A\": [1, \"a\", null, {}]}", "{\"PATTERN_A\": [], \"PATTERN_B\": [[\"x\"]]}", "{\"PATTERN_A\": true, \"PATTERN_B\": 1.5}", "{\"PATTERN_A\": \"%{WORD:w}\", \"WORD\": \"[0-9]+\", \"USERNAME\": \"x\"}", "{\"PATTERN_A\": \"%{PATTERN_B}\", \"PATTERN_B\": \"%{PATTERN_C}\", \"PATTERN_C\": \"username=%{USERNAME:username}\"}", "{\"PATTERN_A\": \"%{PATTERN_A:again}\"}"]
         } else if c.name.starts_with("parse_etld") {
-            &["!", "*.", "*", "!\n*.\n", "acmecorp\r\n*.ck\r\n!www.ck\r\n", "acmecorp", "// only a comment\n", "\n\n\n", ".", "..", "a..b", "*.*.x", "!!x", "xn--\n", " acmecorp \n", "ACMECORP\n", "\u{feff}acmecorp\n"]
+            &["!", "*.", "*", "!\n*.\n", "acmecorp\r\n*.ck\r\n!www.ck\r\n", "acmecorp", "// only a comment\n", "\n\n\n", ".", "..", "a..b", "*.*.x", "!!x", "xn--\n", " acmecorp \n", "ACMECORP\n", "\u{feff}acmecorp\n", "a.b.c.d.e.f.g.h.i.j.k.acmecorp\n*.a.b.c.d.e.f.g.acmecorp\n!x.a.b.c.d.e.f.g.acmecorp\n", "*.acmecorp\n!vector.acmecorp\n", "!acmecorp\n", "*\n!vector.acmecorp\n", "acmecorp\nacmecorp\nacmecorp\n"]
         } else if c.name.starts_with("validate_json_schema") {
-            &["true", "false", "{\"$ref\": \"#\"}", "{\"properties\": []}", "{\"type\": \"string\", \"format\": 5}", "{\"$id\": 7}", "{\"type\": [\"string\", 3]}", "{\"$schema\": \"http://unknown.example/schema\"}", "[]", "\"s\"", "null", "{\"type\": \"object\", \"properties\": {\"productUser\": {\"$ref\": \"#/definitions/missing\"}}}", "{\"type\": \"object\", \"required\": \"productUser\"}", "{\"pattern\": \"(\"}", "{\"properties\": {\"productUser\": {\"type\": \"string\", \"pattern\": \"[\"}}}", "{\"$ref\": \"http://example.com/remote.json\"}", "{\"$ref\": \"file:///etc/passwd\"}", "{\"minimum\": \"x\", \"multipleOf\": 0}", "{\"enum\": 3}"]
+            &["true", "false", "{\"$ref\": \"#\"}", "{\"properties\": []}", "{\"type\": \"string\", \"format\": 5}", "{\"$id\": 7}", "{\"type\": [\"string\", 3]}", "{\"$schema\": \"http://unknown.example/schema\"}", "[]", "\"s\"", "null", "{\"type\": \"object\", \"properties\": {\"productUser\": {\"$ref\": \"#/definitions/missing\"}}}", "{\"type\": \"object\", \"required\": \"productUser\"}", "{\"pattern\": \"(\"}", "{\"properties\": {\"productUser\": {\"type\": \"string\", \"pattern\": \"[\"}}}", "{\"$ref\": \"http://example.com/remote.json\"}", "{\"$ref\": \"file:///etc/passwd\"}", "{\"minimum\": \"x\", \"multipleOf\": 0}", "{\"enum\": 3}", "{\"$defs\": {\"a\": {\"$ref\": \"#/$defs/b\"}, \"b\": {\"$ref\": \"#/$defs/a\"}}, \"$ref\": \"#/$defs/a\"}", "{\"$defs\": {\"a\": {\"properties\": {\"productUser\": {\"$ref\": \"#/$defs/a\"}}}}, \"$ref\": \"#/$defs/a\"}", "{\"type\": \"object\", \"properties\": {\"productUser\": {\"type\": \"string\", \"format\": \"email\", \"maxLength\": -1}}}", "{\"allOf\": [], \"anyOf\": [], \"oneOf\": []}", "{\"$schema\": 5, \"$id\": \"::\"}"]
         } else {
             &[]
         };
